@@ -35,6 +35,7 @@ import KafkaVerif.Spec.RecordBatch
 import KafkaVerif.Model.RecordWriter
 import KafkaVerif.Model.RecordReader
 import KafkaVerif.Model.Pages
+import KafkaVerif.Model.ConnReader
 
 namespace KV.OracleC05
 open KV KV.RW KV.Spec.RB
@@ -174,10 +175,16 @@ def checkWire (tag : String) (bytes : Bytes) (zs : List Z) (impl : String) : Str
       let visible := groups.filter (fun g => !(hide && g.1))
       let recs := (visible.map (·.2)).flatten
       let spec := showRecs loose recs
+      -- Conn path: `model` = the byte-level Conn reader model (Model/ConnReader);
       -- Client.Fetch path: `model` is what the DECODER MODEL (Model/RecordReader) returns for these bytes, the
       -- monitor stays the reference decoder
       let model := if tag.startsWith "fetch/recordset" || tag.startsWith "fetch/client"
-        then showRecs loose (Model.RecordReader.clientFetch crcs (decWith zs) bytes) else spec
+        then showRecs loose (Model.RecordReader.clientFetch crcs (decWith zs) bytes)
+        else if tag.startsWith "fetch/conn"
+        then (match Model.ConnReader.connReadSet (decWith zs) bytes.length bytes with
+              | some rs => showRecs loose rs
+              | none => "conn-model-failed")
+        else spec
       s!"model={model} holds={if spec == impl && prodOk && oneBatch && (!reject || !complete) then 1 else 0}"
 
 /-! ### page traces (hooks in protocol/buffer.go) replayed through Model/Pages -/
